@@ -1,9 +1,9 @@
 CONSTANTS
   MaxStack = 3
   Budget = 4
-  Enabled = {"Match", "PatOnly", "Module"}
+  Enabled = {"Name", "Const", "SimpleStmt", "Def", "Class", "TypeParams", "Starred", "Call", "Module"}
   NameSet = {"a", "b"}
-  ExtraParens = FALSE
+  ExtraParens = TRUE
   Emit = TRUE
 SPECIFICATION Spec
 INVARIANTS EmitOK
